@@ -323,6 +323,8 @@ func (e *Exec) zzIntrinsic(name string, args []Value) (Value, bool) {
 		return b.Mul(e.termOf(args[0]), e.termOf(args[1])), true
 	case "zzWMulC":
 		return b.Mul(b.IntConst(e.bigConst(e.argStr(args[1]))), e.termOf(args[0])), true
+	case "zzWShl":
+		return b.Mul(b.IntConst(pow2(e.argInt(args[1]))), e.termOf(args[0])), true
 	case "zzWMod":
 		return b.IMod(e.termOf(args[0]), b.IntConst(e.bigConst(e.argStr(args[1])))), true
 	case "zzWDiv":
